@@ -122,3 +122,21 @@ Theorem seq_drop_sound : forall es, Forall sound es -> forall S r r' o v r1 o1,
   exists r1', eval_seq (seq_filter (map (fun a => simplify a S true) es)) (r', o) = (Some v, (r1', o1)) /\ agree S r1 r1'.
 Proof. exact SimplifyProofs.seq_sound. Qed.
 Print Assumptions seq_drop_sound.
+
+(** (A) continued: signed product and the 128-step division *)
+From ChibiV Require Import C09.LuintProofs2.
+
+Theorem lsint_mul_sint_Z : forall a b, ls_ok a -> s64 b -> b <> - 9223372036854775808 ->
+  ls_ok (lsint_mul_sint a b) /\ luval (lsint_mul_sint a b) = smod128 (luval a * b) /\ lsint_mul_sint_safe a b = true.
+Proof. exact LuintProofs2.lsint_mul_sint_Z. Qed.
+Print Assumptions lsint_mul_sint_Z.
+
+Theorem luint_div_Z : forall a b, lu_ok a -> lu_ok b -> luval b <> 0 ->
+  lu_ok (luint_div a b) /\ luval (luint_div a b) = luval a / luval b /\ luint_div_safe a b = true.
+Proof. exact LuintProofs2.luint_div_Z. Qed.
+Print Assumptions luint_div_Z.
+
+Theorem luint_div_uint_Z : forall a w, lu_ok a -> u64 w -> w <> 0 ->
+  lu_ok (luint_div_uint a w) /\ luval (luint_div_uint a w) = luval a / w.
+Proof. exact LuintProofs2.luint_div_uint_Z. Qed.
+Print Assumptions luint_div_uint_Z.
